@@ -548,7 +548,26 @@ impl<'r> Gen<'r> {
     }
 
     fn interp(&mut self, depth: u32) {
-        match self.rng.below(12) {
+        match self.rng.below(14) {
+            12 | 13 => {
+                // a value segment whose LEFT SPINE (binary operators / type casts, 1-3 levels deep) ends in
+                // a table: the generators must keep the `{` of the segment apart from the `{` of the table
+                // at every depth of the spine (utils::starts_with_table) — seeded C12-m9
+                self.out.push_str("`{ ");
+                self.table(depth + 2);
+                for _ in 0..(1 + self.rng.below(3)) {
+                    if self.rng.chance(1, 3) {
+                        self.out.push_str(" :: any");
+                    } else {
+                        let op = *self.rng.pick(&[" + ", " .. ", " == ", " and ", " or ", " < ", " * "]);
+                        self.out.push_str(op);
+                        let leaf = *self.rng.pick(&["1", "x", "nil", "'s'", "{}"]);
+                        self.out.push_str(leaf);
+                    }
+                }
+                self.out.push_str(" }`");
+                self.ws();
+            }
             6 => self.put("`a\\\nb{x}c`"),
             7 => self.put("`{x}\\z\n   y`"),
             8 => self.put("`\\\n`"),
